@@ -250,6 +250,21 @@ type mrec struct {
 	Created, Modified, Expires, Deleted int64
 	Secret, Crown bool
 	flaggedAtWrite bool
+	// Fuzzy: the expiry was computed from the clock while the clock's second changed during the write: it is
+	// known only to within a second. RelDelayed: a relative expiry written through the delayed-write cache is
+	// re-computed when the write is flushed, so the record may live longer than the model's value.
+	Fuzzy, RelDelayed bool
+}
+
+// uncertain reports whether the visibility of the record cannot be decided at the given second.
+func (m *mrec) uncertain(now int64) bool {
+	if m == nil || m.Deleted != 0 || m.Expires <= 0 {
+		return false
+	}
+	if m.Expires >= now-2 && m.Expires <= now+2 {
+		return true
+	}
+	return m.RelDelayed && now >= m.Expires-2
 }
 
 func (m *mrec) visible(now int64) bool {
